@@ -6,6 +6,9 @@ package main
 // recover(), a per-call deadline and an allocation bound: monitor only, this is testing.
 
 import (
+	"github.com/ethereum/go-ethereum/p2p/enr"
+	"github.com/ethereum/go-ethereum/rlp"
+
 	crand "crypto/rand"
 	"encoding/base64"
 	"encoding/json"
@@ -114,6 +117,13 @@ func decodeTargets(u *universe, mySubnets records.Subnets) []target {
 		{"NodeInfo.Consume", func(b []byte) { _ = (&records.NodeInfo{}).Consume(b) }},
 		{"SignedNodeInfo.Consume", func(b []byte) { _ = (&records.SignedNodeInfo{}).Consume(b) }},
 		{"NodeMetadata.Decode", func(b []byte) { _ = (&records.NodeMetadata{}).Decode(b) }},
+		{"ENR-entry-domaintype", func(b []byte) { _, _ = records.GetDomainTypeEntry(enrWith("domaintype", b)) }},
+		{"ENR-entry-subnets", func(b []byte) {
+			if sn, err := records.GetSubnetsEntry(enrWith("subnets", b)); err == nil {
+				_ = records.SharedSubnets(mySubnets, sn, 1)
+				_ = records.SharedSubnets(sn, mySubnets, 0)
+			}
+		}},
 		{"Subnets.FromString", func(b []byte) {
 			if s, err := (records.Subnets{}).FromString(string(b)); err == nil {
 				_ = s.String()
@@ -185,6 +195,14 @@ func decodeSeeds(u *universe, r *hx.Rand) map[string][][]byte {
 	for _, s := range []string{records.AllSubnets, records.ZeroSubnets, "0x" + records.AllSubnets, "00", "f", "", "ffffffffffffffffffffffffffffffffff", "0g", "FFfF"} {
 		add("subnets", []byte(s))
 	}
+	for _, l := range []int{0, 1, 2, 3, 4, 5, 16, 17, 60} {
+		enc, _ := rlp.EncodeToBytes(r.Bytes(l))
+		add("enr-domaintype", enc)
+		add("enr-subnets", enc)
+	}
+	lst, _ := rlp.EncodeToBytes([][]byte{{1}, {2, 3}})
+	add("enr-domaintype", lst)
+	add("enr-subnets", lst)
 	return seeds
 }
 
@@ -192,7 +210,7 @@ var seedKindOf = map[string]string{
 	"DecodeSignedSSVMessage": "p2p", "DecodeNetworkMsg": "ssv", "DecodeSSVMessage-consensus": "cons",
 	"DecodeSSVMessage-partial": "part", "DecodeSSVMessage-event": "event", "NodeInfo.UnmarshalRecord": "nodeinfo",
 	"SignedNodeInfo.UnmarshalRecord": "signednodeinfo", "NodeInfo.Consume": "nodeinfo-sealed", "SignedNodeInfo.Consume": "signednodeinfo-sealed",
-	"NodeMetadata.Decode": "metadata", "Subnets.FromString": "subnets", "validateP2PMessage": "p2p",
+	"NodeMetadata.Decode": "metadata", "Subnets.FromString": "subnets", "ENR-entry-domaintype": "enr-domaintype", "ENR-entry-subnets": "enr-subnets", "validateP2PMessage": "p2p",
 	"validateP2PMessage-signed-era": "p2p", "ValidatePubsubMessage": "p2p",
 }
 
@@ -424,6 +442,40 @@ func (s *session) doDSSV(n int) {
 	s.emitObs(obs)
 }
 
+// enrWith returns a node record carrying the given raw RLP value under the key, as a peer that signs its own
+// record can publish it.
+func enrWith(key string, raw []byte) *enr.Record {
+	var rec enr.Record
+	rec.Set(enr.WithEntry(key, rlp.RawValue(raw)))
+	return &rec
+}
+
+// doDomainType: the "domaintype" entry of a peer's node record holding the byte string bs.
+func (s *session) doDomainType(bs []byte) {
+	raw, _ := rlp.EncodeToBytes(bs)
+	obs := ""
+	func() {
+		defer func() {
+			if r := recover(); r != nil {
+				obs = fmt.Sprintf("domaintype panic %v", r)
+			}
+		}()
+		dt, err := records.GetDomainTypeEntry(enrWith("domaintype", raw))
+		if err != nil {
+			obs = "domaintype err"
+		} else {
+			obs = fmt.Sprintf("domaintype ok %d,%d,%d,%d", dt[0], dt[1], dt[2], dt[3])
+		}
+	}()
+	var sb strings.Builder
+	fmt.Fprintf(&sb, "%d", len(bs))
+	for _, b := range bs {
+		fmt.Fprintf(&sb, " %d", b)
+	}
+	s.out.Op("DOMAINTYPE", "%s", sb.String())
+	s.emitObs(obs)
+}
+
 // doSNI: a JSON document with k entries whose fields are individually valid or not.
 func (s *session) doSNI(k int, ok [5]bool) {
 	entries := make([]string, k)
@@ -482,6 +534,16 @@ func handWrittenCases(s *session, r *hx.Rand, n int) {
 			s.doSNI(k, [5]bool{m&1 == 0, m&2 == 0, m&4 == 0, m&8 == 0, m&16 == 0})
 		}
 	}
+	s.out.End()
+	s.out.Case("prop=%s handwritten node record entry domaintype", s.prop)
+	for l := 0; l <= 9; l++ {
+		bs := make([]byte, l)
+		for j := range bs {
+			bs[j] = byte(r.Uint64())
+		}
+		s.doDomainType(bs)
+	}
+	s.doDomainType(r.Bytes(64))
 	s.out.End()
 	fixed := []string{records.AllSubnets, records.ZeroSubnets, "0x" + records.AllSubnets, "", "0", "00", "01", "f", "fF", "0g", "g0", "0x", "0x0x11",
 		"ffffffffffffffffffffffffffffffffff", "00000000000000000000000000000100", "\x80\x81", "1\xff"}
@@ -556,6 +618,13 @@ func replayDecoderLine(out *hx.Out, prop string, f []string) {
 			b[i] = byte(atoi(f[4+ka+i]))
 		}
 		s.doShared(a, b, ml)
+	case "DOMAINTYPE":
+		k := atoi(f[1])
+		bs := make([]byte, k)
+		for i := 0; i < k && 2+i < len(f); i++ {
+			bs[i] = byte(atoi(f[2+i]))
+		}
+		s.doDomainType(bs)
 	case "SNI":
 		if len(f) == 7 {
 			s.doSNI(atoi(f[1]), [5]bool{f[2] == "1", f[3] == "1", f[4] == "1", f[5] == "1", f[6] == "1"})
